@@ -448,6 +448,20 @@ type c04Model struct {
 	resumed bool      // the current instance was opened on the existing file
 	stored  []kit.Blk // blocks the last put/many step stored (per the model)
 	results [3]int    // last step: stored / skipped / rejected blocks
+	// preBatch is the model's content before the last put/many step: a batch that is rejected
+	// for an over-long CID may have stored the blocks in front of it or nothing at all.
+	preBatch []kit.Blk
+	// probeClose: the last step was Close on an open, unfinalized CARv2 store; the statement does
+	// not say whether that closes the store, so the driver asks the implementation.
+	probeClose bool
+	notes      []string // beyond-statement observations of the last step
+}
+
+func (md *c04Model) maxCid() uint64 {
+	if md.m.Cfg.MaxCid == 0 {
+		return 2048
+	}
+	return md.m.Cfg.MaxCid
 }
 
 func (md *c04Model) key() string {
@@ -463,11 +477,16 @@ func (md *c04Model) key() string {
 }
 
 // apply advances the model and returns what the call must return: "nil", "error", "toolarge",
-// or "" (not compared).
-func (md *c04Model) apply(op string) (wantErr string) {
+// or "" (not compared). It runs after the call: got is the error the implementation returned,
+// consulted ONLY where the statement allows two behaviours (an over-long identity CID while
+// identity CIDs are not stored is either skipped silently or rejected as over-long).
+func (md *c04Model) apply(op string, got error) (wantErr string) {
 	kind, arg, _ := strings.Cut(op, ":")
 	md.stored = nil
 	md.results = [3]int{}
+	md.preBatch = nil
+	md.probeClose = false
+	md.notes = nil
 	switch kind {
 	case "put", "many":
 		names := c04Names(arg)
@@ -477,8 +496,22 @@ func (md *c04Model) apply(op string) (wantErr string) {
 			}
 			return "error"
 		}
+		md.preBatch = append([]kit.Blk{}, md.m.Stored...)
+		var gotTL *carv2.ErrCidTooLarge
+		errors.As(got, &gotTL)
 		for _, n := range names {
 			b := c04B(n)
+			if model.IsIdentity(b.Raw) && !md.m.Cfg.StoreID && uint64(len(b.Raw)) > md.maxCid() {
+				// the IdStore rule (skip) and the over-long rule (reject) both apply; never stored
+				if gotTL != nil && gotTL.CurrentSize == uint64(len(b.Raw)) {
+					md.results[2]++
+					md.notes = append(md.notes, "overlong-unstored-identity-cid-rejected")
+					return "toolarge"
+				}
+				md.notes = append(md.notes, "overlong-unstored-identity-cid-skipped")
+				md.results[1]++
+				continue
+			}
 			switch md.m.Put(b) {
 			case model.PutTooLarge:
 				md.results[2]++
@@ -510,7 +543,9 @@ func (md *c04Model) apply(op string) (wantErr string) {
 			if md.v1 {
 				md.life = "closed"
 			} else {
-				return "error" // Close without FinalizeReadOnly first: refused, store stays open
+				// Close without FinalizeReadOnly first: the statement speaks of Finalize and
+				// Discard only; whether the store is closed now is probed by the caller
+				md.probeClose = true
 			}
 		case "finro":
 			md.life = "closed"
@@ -550,10 +585,20 @@ func newC04Exec(cs C04Case, muts []string) *c04Exec {
 	return e
 }
 
-// c04TooLarge recognises go-car's read-limit refusals (MaxAllowedSectionSize / MaxAllowedHeaderSize);
-// the error values live in an internal package.
-func c04TooLarge(err error) bool {
-	return err != nil && strings.Contains(err.Error(), "length of read beyond allowable maximum")
+// c04Refusal decides whether err is an acceptable answer of a read whose configured limit
+// (MaxAllowedSectionSize / MaxAllowedHeaderSize) is below what the session wrote. go-car's
+// sentinel errors live in an internal package and their wording is not part of any contract, so
+// the decision is structural: any error that does not claim "not found" is a refusal. Whether it
+// carries the current wording is recorded as an outcome only.
+func c04Refusal(x *kit.Ctx, refusable bool, err error) bool {
+	if !refusable || err == nil || isNotFound(err) {
+		return false
+	}
+	x.Count("limit_refusals", 1)
+	if !strings.Contains(err.Error(), "length of read beyond allowable maximum") {
+		x.Outcome("beyond-statement:limit-refusal-with-other-error-text")
+	}
+	return true
 }
 
 // fileHeader decodes the CARv1 header found at the data offset of the file.
@@ -592,13 +637,7 @@ func c04Observe(x *kit.Ctx, e *c04Exec, rc C04Case, s rwStore, md *c04Model, fil
 	}
 	sectRefusable := rc.Opts.MaxSect > 0 && maxSect > rc.Opts.MaxSect
 	hdrRefusable := rc.Opts.MaxHeader > 0 && (fherr != nil || hdrLen > rc.Opts.MaxHeader)
-	refused := func(err error) bool {
-		if sectRefusable && c04TooLarge(err) {
-			x.Count("limit_refusals", 1)
-			return true
-		}
-		return false
-	}
+	refused := func(err error) bool { return c04Refusal(x, sectRefusable, err) }
 	for _, q := range e.queries {
 		x.Transition(3)
 		has, herr := s.Has(q.Cid)
@@ -607,8 +646,12 @@ func c04Observe(x *kit.Ctx, e *c04Exec, rc C04Case, s rwStore, md *c04Model, fil
 		fmt.Fprintf(fp, "%v/%v/%x/%v/%d/%v;", has, herr != nil, data, gerr != nil, size, serr != nil)
 		ident := model.IsIdentity(q.Raw)
 		if md.life == "closed" {
-			if ident && !md.m.Cfg.StoreID {
-				continue // identity lookups after close: not specified
+			if ident {
+				// the statement demands an error of every NON-identity lookup
+				if herr == nil || gerr == nil {
+					x.Outcome("beyond-statement:identity-lookup-answered-on-closed-store")
+				}
+				continue
 			}
 			if herr == nil {
 				fail("closed-has", "Has(%s)=%v without error on a closed store", q.Name, has)
@@ -616,7 +659,7 @@ func c04Observe(x *kit.Ctx, e *c04Exec, rc C04Case, s rwStore, md *c04Model, fil
 			if gerr == nil {
 				fail("closed-get", "Get(%s) returned data on a closed store", q.Name)
 			}
-			if serr == nil && !ident {
+			if serr == nil {
 				fail("closed-size", "GetSize(%s)=%d without error on a closed store", q.Name, size)
 			}
 			continue
@@ -694,8 +737,8 @@ func c04Observe(x *kit.Ctx, e *c04Exec, rc C04Case, s rwStore, md *c04Model, fil
 	}
 	if md.life != "closed" {
 		rs, err := s.Roots()
-		if err != nil && hdrRefusable && c04TooLarge(err) {
-			x.Count("limit_refusals", 1)
+		if c04Refusal(x, hdrRefusable, err) {
+			// the caller's own MaxAllowedHeaderSize refuses the header this session wrote
 		} else if err != nil || !sameRoots(rs, e.rootRaws) {
 			fail("roots", "Roots()=%x,%v want %x", rs, err, e.rootRaws)
 		}
@@ -737,7 +780,6 @@ func c04RunPath(x *kit.Ctx, e *c04Exec, path []string) string {
 	for i, op := range path {
 		rc.Path = path[:i+1]
 		wasLife := md.life
-		want := md.apply(op)
 		kind, arg, _ := strings.Cut(op, ":")
 		before := file
 		var err error
@@ -753,11 +795,32 @@ func c04RunPath(x *kit.Ctx, e *c04Exec, path []string) string {
 		}
 		x.Transition(1)
 		file = s.File()
+		want := md.apply(op, err)
+		for _, n := range md.notes {
+			x.Outcome("beyond-statement:" + n)
+		}
+		if md.probeClose {
+			// a closed store answers no non-identity lookup; an open one answers all of them (the
+			// observers below check whichever state the probe finds, in full)
+			if _, perr := s.Has(kit.Absent.Cid); perr != nil {
+				md.life = "closed"
+				x.Outcome("beyond-statement:close-before-finalize-closes-the-store")
+			} else {
+				x.Outcome("beyond-statement:close-before-finalize-leaves-the-store-open")
+			}
+		}
+		if kind == "many" && want == "toolarge" && len(md.stored) > 0 && bytes.Equal(file, before) {
+			// the batch was rejected as a whole (validated before anything was written): the
+			// statement promises nothing about the other blocks of a failed PutMany
+			md.m.Stored = md.preBatch
+			md.stored = nil
+			md.results[0] = 0
+			x.Outcome("beyond-statement:rejected-batch-stored-nothing")
+		}
 		if kind == "reopen" && err != nil {
 			_, hl, herr := e.fileHeader(before)
-			if cs.Opts.MaxHeader > 0 && (herr != nil || hl > cs.Opts.MaxHeader) && c04TooLarge(err) {
+			if c04Refusal(x, cs.Opts.MaxHeader > 0 && (herr != nil || hl > cs.Opts.MaxHeader), err) {
 				// the caller's own MaxAllowedHeaderSize refuses the header this session wrote
-				x.Count("limit_refusals", 1)
 				if !bytes.Equal(before, file) {
 					x.FailCase(rc, "c04:refused-reopen-changed-file:"+cs.Front, "reopen was refused (%v) but changed the file (%d -> %d bytes)", err, len(before), len(file))
 					return ""
@@ -797,7 +860,7 @@ func c04RunPath(x *kit.Ctx, e *c04Exec, path []string) string {
 					exp = append(exp, refcar.EncodeSection(b.Ref())...)
 				}
 			}
-			if !bytes.Equal(file, exp) {
+			if !c04SameWhileOpen(x, e, wasLife, file, exp) {
 				if len(md.stored) == 0 {
 					x.FailCase(rc, "c04:noop-put-changed-file:"+cs.Front, "%s stores nothing per the model (store %s, returned %v) but the file changed: %d -> %d bytes", op, wasLife, err, len(before), len(file))
 				} else {
@@ -821,6 +884,24 @@ func c04RunPath(x *kit.Ctx, e *c04Exec, path []string) string {
 		fp = c04Observe(x, e, rc, s, md, file)
 	}
 	return md.key() + "#" + fp
+}
+
+// c04SameWhileOpen compares the file after a put with the expected bytes. On a store that is not
+// open every byte counts. While a CARv2 store is open the statement fixes nothing about the 40
+// header bytes and the data padding between the pragma and the payload (they are only defined by
+// Finalize), so the pragma and the payload region are compared.
+func c04SameWhileOpen(x *kit.Ctx, e *c04Exec, wasLife string, file, exp []byte) bool {
+	if bytes.Equal(file, exp) {
+		return true
+	}
+	if wasLife != "open" || e.dataOff == 0 || len(file) < e.dataOff || len(exp) < e.dataOff {
+		return false
+	}
+	if bytes.Equal(file[:refcar.PragmaSize], exp[:refcar.PragmaSize]) && bytes.Equal(file[e.dataOff:], exp[e.dataOff:]) {
+		x.Outcome("beyond-statement:v2-header-region-changed-while-open")
+		return true
+	}
+	return false
 }
 
 func firstDiff(a, b []byte) int {
@@ -1098,11 +1179,11 @@ func init() {
 		Gen:    genC04,
 		Run:    runC04,
 		Decode: kit.DecodeAs[C04Case],
-		Rule: "explicit-state breadth-first search over mutator sequences up to the depth bound; each successor replays the path on a fresh real instance; in EVERY reached state every observer (Has/Get/GetSize of the fixed CIDs + every CID the alphabet can put + an absent one, AllKeysChan, Roots, CARv1 header decoded from the file, file bytes) is compared with the map model, and after every Put/PutMany the file must equal the previous bytes plus exactly the sections of the blocks the model stored (unchanged when the model stores nothing: over-long, skipped, closed); states are de-duplicated on (model state incl. resumed flag, sha256 of the implementation's observations incl. file bytes); non-trivial = state with >=2 stored blocks. " +
+		Rule: "explicit-state breadth-first search over mutator sequences up to the depth bound; each successor replays the path on a fresh real instance; in EVERY reached state every observer (Has/Get/GetSize of the fixed CIDs + every CID the alphabet can put + an absent one, AllKeysChan, Roots, CARv1 header decoded from the file, file bytes) is compared with the map model, and after every Put/PutMany the file must equal the previous bytes plus exactly the sections of the blocks the model stored (unchanged when the model stores nothing: over-long, skipped, closed; while a CARv2 store is open the comparison covers the pragma and the payload region, the header/padding bytes in between are only fixed from Finalize/Discard on, when every byte is frozen); states are de-duplicated on (model state incl. resumed flag, sha256 of the implementation's observations incl. file bytes); non-trivial = state with >=2 stored blocks. " +
 			"Family 1 (core): Put of 6 colliding blocks, 3 PutMany batches, Finalize, Discard, FinalizeReadOnly, Close; 16 option sets (UseWholeCIDs x AllowDuplicatePuts x StoreIdentityCIDs x WriteAsCarV1) x MaxIndexCidSize {default,40} x {blockstore.OpenReadWrite, blockstore.OpenReadWriteFile (caller-owned file), storage.NewReadableWritable}. " +
 			"Family 2 (extended): core + Put of s (68-byte sha2-512 CID), e (empty data), L128 (two-byte section length; thorough also L16384), ak (digest of a under blake2b-256), at (20-byte prefix of a's digest), a0 (CIDv0), ac (CID of a' with other data), PutMany [X,b] / [] / [a,a], and reopen (abandon the instance, resume from the file with the same roots and options); 16 option sets x 3 front-ends x 13 one-factor variants (default; MaxIndexCidSize 36/40/64; roots nil/empty/aa/a0/s; small and 1413-byte padding with both index codecs; read limits exactly at the largest written section/header + ZeroLengthSectionAsEOF; read limits 40/20 below what is written with refusals modelled) at depth 2, and depth 3 on a reduced matrix (quick: default variant x 16 option sets x {bs,st}; thorough: every variant x 16 option sets x {bs,st}, default variant x 16 option sets x bsf); thorough adds a 12-mutator collision/resume alphabet at depth 4 (16 option sets x {bs,st}). " +
 			"Family 3 (scripts): 3 fixed histories (varint-width sweep e/L127/L128/L16383/L16384 with resume; over-long CIDs at 36/40/64/2048 incl. 2048- and 2049-byte identity CIDs, error first and mid-batch; lifecycle interleaved with resume) on the FULL product 16 option sets x MaxIndexCidSize {default,36,40,64} x root sets x 3 paddings x 3 read-limit settings x 3 front-ends",
 		Bound:       c04Bound,
-		Assumptions: []string{"map model = documented rules only (DESIGN A.4)", "identity lookups after close and lifecycle-call return values other than first success are not compared; the return value of an empty PutMany on a closed store is not compared", "state merging assumes the future of a store is determined by its observable state incl. file bytes and whether the instance was resumed", "extra configuration dimensions of family 2 are varied one at a time around each of the 16 option sets (their cross product is only covered by the scripted histories of family 3)", "read limits below the sizes the session itself wrote are the caller's choice: a limit error is accepted iff a stored section / the header exceeds the limit, every other observation must be unaffected", "reopen = a new instance on the same file with identical roots and options; it restarts the lifecycle (the file may change again)", "blocks whose data does not hash to their CID are valid inputs (the stores do not verify hashes)"},
+		Assumptions: []string{"map model = documented rules only (DESIGN A.4)", "identity lookups after close and lifecycle-call return values other than first success are not compared; the return value of an empty PutMany on a closed store is not compared", "where the statement leaves the behaviour open the model follows the implementation and records a beyond-statement outcome, then checks that state in full: Close on an open unfinalized CARv2 store (closed or still open, decided by a Has probe of an absent key); a PutMany rejected for an over-long CID (blocks in front of it stored, or nothing stored when the file is byte-identical); an over-long identity CID while identity CIDs are not stored (skipped silently or rejected with ErrCidTooLarge, never stored)", "state merging assumes the future of a store is determined by its observable state incl. file bytes and whether the instance was resumed", "extra configuration dimensions of family 2 are varied one at a time around each of the 16 option sets (their cross product is only covered by the scripted histories of family 3)", "read limits below the sizes the session itself wrote are the caller's choice: an error other than not-found is accepted iff a stored section / the header exceeds the limit (its wording is not compared), every other observation must be unaffected", "reopen = a new instance on the same file with identical roots and options; it restarts the lifecycle (the file may change again)", "blocks whose data does not hash to their CID are valid inputs (the stores do not verify hashes)"},
 	})
 }
